@@ -87,7 +87,11 @@ func main() {
 		ins("\tstate := &lexerState{}\n", "\tverifrt.Yield(\"lexnew\", \"\")\n")
 		ins("func getNextToken(l *SyslLexer) antlr.Token {\n", "\tverifrt.Yield(\"tok\", \"\")\n")
 		ins("import (\n", "\t\"github.com/anz-bank/sysl/pkg/verifrt\"\n")
-		s += "\n// VerifLexerStates reports the number of live entries in the lexer-state registry.\nfunc VerifLexerStates() int { return lexerStates.Len() }\n"
+		if strings.Contains(s, "hashmap.HashMap") {
+			s += "\n// VerifLexerStates reports the number of live entries in the lexer-state registry.\nfunc VerifLexerStates() int { return lexerStates.Len() }\n"
+		} else {
+			s += "\n// VerifLexerStates reports the number of live entries in the lexer-state registry.\nfunc VerifLexerStates() int {\n\tn := 0\n\tlexerStates.Range(func(_, _ interface{}) bool { n++; return true })\n\treturn n\n}\n"
+		}
 		dst := filepath.Join(out, "lexer_impl.go.txt")
 		must(os.WriteFile(dst, []byte(s), 0o644))
 		replace[src] = dst
